@@ -46,8 +46,12 @@ CountIn(s, x) == Cardinality({i \in 1..Len(s) : s[i] = x})
 BagFields == {"frozen", "wait", "checksUsed", "haltVotes", "commVotes", "updVotes", "deleted", "blocked"}
 CandEq(c, d) == /\ SameExcept(c, d, {"stakes", "upd"})
                 /\ BagOf(c.stakes) = BagOf(d.stakes) /\ BagOf(c.upd) = BagOf(d.upd)
+\* the voters of a proposal are a set (the projection lists them sorted, the node in order of arrival)
+VoteFields == {"haltVotes", "commVotes", "updVotes"}
+VoteNorm(v) == [h |-> v.h, what |-> v.what, votes |-> Range(v.votes)]
 SameField(s, t, f) ==
-   IF f \in BagFields THEN BagOf(s[f]) = BagOf(t[f])
+   IF f \in VoteFields THEN BagOf(MapSeq(s[f], VoteNorm)) = BagOf(MapSeq(t[f], VoteNorm))
+   ELSE IF f \in BagFields THEN BagOf(s[f]) = BagOf(t[f])
    ELSE IF f = "cands" THEN DOMAIN s.cands = DOMAIN t.cands /\ \A p \in DOMAIN s.cands : CandEq(s.cands[p], t.cands[p])
    ELSE s[f] = t[f]
 StateDiff(s, t) == {f \in DOMAIN s \cup DOMAIN t : f \notin DOMAIN s \/ f \notin DOMAIN t \/ ~SameField(s, t, f)}
